@@ -867,6 +867,7 @@ static Node *declaration(Token **rest, Token *tok, Type *basety, VarAttr *attr) 
       // static local variable
       Obj *var = new_anon_gvar(ty);
       var->is_tls = attr->is_tls;
+      var->owner_fn = current_fn;
       if (attr->align)
         var->align = attr->align;
       push_scope(get_ident(ty->name))->var = var;
